@@ -1,18 +1,24 @@
-(* Lint.v — executable model of the text level of pkg/linter (rules L001, L002, L003, L005, L007, L010),
-   of the CLI auto-fix pipeline (cmd/gosqlx/cmd/lint.go) and of the language server's format action
-   (formatSQL in pkg/lsp/handler.go).  Definitions only.
+(* Lint.v — executable model of the text level of pkg/linter (the shared lexical scanner LexMap, rules L001,
+   L002, L003, L005, L007, L010), of the CLI auto-fix loop (cmd/gosqlx/cmd/lint.go) and of the language
+   server's format action (formatSQL in pkg/lsp/handler.go).  Definitions only.
 
-   Text.  Go strings are byte strings; the rules walk them either byte-wise (len, indexing, TrimRight with
-   an ASCII cut set) or rune-wise (`for i, ch := range line`, []rune(line), strings.TrimSpace).  A text is
-   therefore modelled as the list of its decoded characters [ch]: code point, source bytes, validity
-   (an invalid byte decodes to U+FFFD of width 1, exactly as utf8.DecodeRune does).  Byte offsets
-   (columns) are sums of source widths; strings.Builder.WriteRune of an invalid character writes
-   EF BF BD, which is [wr].  [decode] / [encode] connect the model to the bytes the implementation
-   sees; they are validated, like everything else here, by the byte-for-byte correspondence.
+   Text.  Go strings are byte strings; the rules walk them byte-wise (len, indexing, the lexical map) or
+   rune-wise (`for i, ch := range line`, strings.TrimSpace).  A text is modelled as the list of its decoded
+   characters [ch]: code point, source bytes, validity (an invalid byte decodes to U+FFFD of width 1, exactly
+   as utf8.DecodeRune does).  Byte offsets (columns) are sums of source widths.  Since the repair of the
+   rules every byte that is not rewritten is copied unchanged, so a character is always written back as its
+   source bytes.  [decode] / [encode] connect the model to the bytes the implementation sees; they are
+   validated, like everything else here, by the byte-for-byte correspondence.
 
-   The Unicode classes (unicode.IsLetter / IsDigit / IsSpace), the runes whose unicode.ToUpper image is
-   an ASCII letter and the keyword set of L007 are parameters of the model; lib/c17.py regenerates them
-   from the toolchain / the source into Gen/LintTables.v on every run. *)
+   Lexical context.  linter.LexMap classifies every byte of the WHOLE text in one pass (state carried across
+   line breaks): 0 code, 1 string literal / quoted identifier, 2 block comment, 3 line comment.  All bytes of
+   a character have the class of its first byte (the delimiters are ASCII), so the model classifies
+   characters: [lex].  A rule sees a line as the list of its characters paired with their classes
+   ([clines]): it may re-layout or re-case code (class 0) only.
+
+   The Unicode classes (unicode.IsLetter / IsDigit / IsSpace), the runes whose unicode.ToUpper image is an
+   ASCII letter and the keyword set of L007 are parameters of the model; lib/c17.py regenerates them from
+   the toolchain / the source into Gen/LintTables.v on every run. *)
 From Coq Require Import List NArith Bool Arith.
 Import ListNotations.
 Local Open Scope N_scope.
@@ -69,11 +75,6 @@ Fixpoint decode_go (skip : nat) (s : list N) : list ch :=
 Definition decode (s : list N) : list ch := decode_go 0 s.
 Definition encode (l : list ch) : list N := flat_map raw l.
 
-(* what strings.Builder.WriteRune(ch) appends for a character obtained by ranging over a string *)
-(* (an undecodable byte has code point U+FFFD already; keeping [cp c] makes [wr] code-point preserving
-   on every record, decoded or not) *)
-Definition wr (c : ch) : ch := if valid c then c else mkch (cp c) [239; 191; 189] true.
-
 Definition width (c : ch) : nat := length (raw c).
 Definition blen (l : list ch) : nat := fold_right (fun c n => (width c + n)%nat) 0%nat l.
 
@@ -82,7 +83,7 @@ Definition is_nl (c : ch) : bool :=
   (cp c =? 10) && valid c && match raw c with [b] => b =? 10 | _ => false end.
 Definition is_sp (c : ch) : bool := cp c =? 32.
 Definition is_tab (c : ch) : bool := cp c =? 9.
-Definition is_blank (c : ch) : bool := is_sp c || is_tab c.      (* the cut set " \t" *)
+Definition is_blank (c : ch) : bool := is_sp c || is_tab c.      (* space or tab *)
 Definition nlc : ch := asc 10.
 Definition spc : ch := asc 32.
 
@@ -130,23 +131,114 @@ Fixpoint trim_r {A} (p : A -> bool) (l : list A) : list A :=
 (* a violation: 1-based line, 1-based byte column *)
 Definition viol := (nat * nat)%type.
 
-(* run [f lineNumber line] over the lines, concatenating the reported violations *)
-Fixpoint on_lines (f : nat -> list ch -> list viol) (n : nat) (ls : list (list ch)) : list viol :=
+(* ------------------------------------------------------------------------------------------------ *)
+(* linter.LexMap: the lexical context of every character *)
+
+Inductive lst :=
+| SCode                 (* lexInCode *)
+| SLit (q : N)          (* lexInSingle / lexInDouble / lexInBackquote: inside a construct opened by the quote q *)
+| SLine                 (* lexInLineComment *)
+| SBlockOpen            (* on the '*' of the opening of a block comment *)
+| SBlock                (* lexInBlock *)
+| SBlockClose.          (* on the '/' of the closing of a block comment *)
+
+Definition next_is (n : N) (t : list ch) : bool := match t with d :: _ => cp d =? n | [] => false end.
+(* quoteKind: the typographic single quotes U+2018 U+2019 and the guillemets U+00AB U+00BB count as the apostrophe,
+   the typographic double quotes U+201C U+201D as the quotation mark (the tokenizer's normalizeQuote) *)
+Definition nq (n : N) : N :=
+  if (n =? 8216) || (n =? 8217) || (n =? 171) || (n =? 187) then 39
+  else if (n =? 8220) || (n =? 8221) then 34 else n.
+Definition is_quote (c : ch) : bool := (nq (cp c) =? 39) || (nq (cp c) =? 34) || (cp c =? 96).
+
+(* one step of the scanner on character c followed by nx: (class of c, state after c).  A backslash is an
+   ordinary character; a doubled quote closes the construct and re-opens it at once. *)
+Definition lstep (st : lst) (c : ch) (nx : list ch) : N * lst :=
+  match st with
+  | SCode =>
+      if is_quote c then (1, SLit (nq (cp c)))
+      else if (cp c =? 45) && next_is 45 nx then (3, SLine)
+      else if (cp c =? 47) && next_is 42 nx then (2, SBlockOpen)
+      else (0, SCode)
+  | SLit q => (1, if nq (cp c) =? q then SCode else SLit q)
+  | SLine => if is_nl c then (0, SCode) else (3, SLine)
+  | SBlockOpen => (2, SBlock)
+  | SBlock => if (cp c =? 42) && next_is 47 nx then (2, SBlockClose) else (2, SBlock)
+  | SBlockClose => (2, SCode)
+  end.
+
+Fixpoint lex (st : lst) (l : list ch) : list N :=
+  match l with
+  | [] => []
+  | c :: t => fst (lstep st c t) :: lex (snd (lstep st c t)) t
+  end.
+Fixpoint lex_end (st : lst) (l : list ch) : lst :=
+  match l with
+  | [] => st
+  | c :: t => lex_end (snd (lstep st c t)) t
+  end.
+(* m[len(text)]: the context at the end of the text is code when no literal or block comment is open *)
+Definition end_code (st : lst) : bool := match st with SCode | SLine => true | _ => false end.
+
+(* a classified character, a classified text *)
+Definition cc := (ch * N)%type.
+Definition ctext (t : list ch) : list cc := combine t (lex SCode t).
+Definition code0 (p : cc) : bool := snd p =? 0.
+
+(* the lines of a classified text: (does the line begin in code?, its classified characters).
+   linter.LineStartsInCode: the first line does; another line does iff the class of the line break before it is code *)
+Fixpoint csplit (flag : bool) (l : list cc) : list (bool * list cc) :=
+  match l with
+  | [] => [(flag, [])]
+  | p :: t =>
+      if is_nl (fst p) then (flag, []) :: csplit (code0 p) t
+      else match csplit flag t with
+           | (f, h) :: r => (f, p :: h) :: r
+           | [] => [(flag, [p])]
+           end
+  end.
+Definition clines (t : list ch) : list (bool * list cc) := csplit true (ctext t).
+Definition chars (l : list cc) : list ch := map fst l.
+(* a rule that rewrites every classified line on its own *)
+Definition per_cline (f : list cc -> list cc) (t : list ch) : list ch :=
+  join_nl (map (fun fl => chars (f (snd fl))) (clines t)).
+
+(* run [f lineNumber line] over the classified lines, concatenating the reported violations *)
+Fixpoint on_clines (f : nat -> bool * list cc -> list viol) (n : nat) (ls : list (bool * list cc)) : list viol :=
   match ls with
   | [] => []
-  | l :: r => f n l ++ on_lines f (S n) r
+  | l :: r => f n l ++ on_clines f (S n) r
   end.
 
-Fixpoint last_byte (l : list N) : option N :=
+Fixpoint lastc {A} (l : list A) : option A :=
   match l with
   | [] => None
-  | [b] => Some b
-  | _ :: t => last_byte t
+  | [c] => Some c
+  | _ :: t => lastc t
   end.
 
-(* `ch == '-' && strings.HasPrefix(line[i:], "--")`: a line comment starts at c (next character: head of t) *)
-Definition next_is (n : N) (t : list ch) : bool := match t with d :: _ => cp d =? n | [] => false end.
-Definition cstart (c : ch) (t : list ch) : bool := (cp c =? 45) && next_is 45 t.
+(* what L001, L002 and L003 name, on the classified lines of a text *)
+(* the line ends in a space or tab that is layout: code, or the tail of a -- comment *)
+Definition tblank (p : cc) : bool := is_blank (fst p) && ((snd p =? 0) || (snd p =? 3)).
+Definition ends_tblank (l : list cc) : Prop := exists p, lastc l = Some p /\ tblank p = true.
+(* indentation kind of a line: 0 none, 1 tabs only, 2 spaces only, 3 mixed (only code blanks are indentation) *)
+Definition lblank (p : cc) : bool := is_blank (fst p) && code0 p.
+Definition ikind (l : list cc) : N :=
+  match take_l lblank l with
+  | [] => 0
+  | lw => if existsb (fun p : ch * N => is_tab (fst p)) lw && existsb (fun p : ch * N => is_sp (fst p)) lw then 3
+          else if existsb (fun p : ch * N => is_tab (fst p)) lw then 1 else 2
+  end.
+(* the indentation style of the first purely indented line *)
+Fixpoint first_pure (ks : list N) : N :=
+  match ks with
+  | [] => 0
+  | k :: r => if (k =? 1) || (k =? 2) then k else first_pure r
+  end.
+Definition eff (first : N) (pre : list (bool * list cc)) : N :=
+  if first =? 0 then first_pure (map (fun fl => ikind (snd fl)) pre) else first.
+(* the defect L002 names: the line mixes tabs and spaces, or is purely indented in another style than the first such line *)
+Definition l002_defect (first : N) (pre : list (bool * list cc)) (l : list cc) : Prop :=
+  ikind l = 3 \/ ((ikind l = 1 \/ ikind l = 2) /\ eff first pre <> 0 /\ eff first pre <> ikind l).
 
 Section Lint.
   Variables is_letter is_digit is_space : N -> bool.
@@ -162,104 +254,100 @@ Section Lint.
   (* ---------------------------------------------------------------------------------------------- *)
   (* L001 trailing whitespace *)
 
-  Definition l001_fix_line (l : list ch) : list ch := trim_r is_blank l.
-  Definition l001_fix (t : list ch) : list ch := join_nl (map l001_fix_line (split_nl t)).
-
-  (* Check: `lastChar := line[len(line)-1]`; lastChar == ' ' || lastChar == '\t' *)
-  Definition l001_flag (l : list ch) : bool :=
-    match last_byte (encode l) with
-    | None => false
-    | Some b => (b =? 32) || (b =? 9)
-    end.
-  Definition l001_check_line (n : nat) (l : list ch) : list viol :=
-    if l001_flag l then [(n, S (blen (trim_r is_blank l)))] else [].
-  Definition l001_check (t : list ch) : list viol := on_lines l001_check_line 1 (split_nl t).
+  (* trailingBlankStart: a trailing space or tab is removable when it is code or the tail of a -- comment *)
+  Definition l001_line (l : list cc) : list cc := trim_r tblank l.
+  Definition l001_fix (t : list ch) : list ch := per_cline l001_line t.
+  Definition l001_check_line (n : nat) (fl : bool * list cc) : list viol :=
+    let kept := l001_line (snd fl) in
+    if (length kept <? length (snd fl))%nat then [(n, S (blen (chars kept)))] else [].
+  Definition l001_check (t : list ch) : list viol := on_clines l001_check_line 1 (clines t).
 
   (* ---------------------------------------------------------------------------------------------- *)
   (* L002 mixed indentation *)
 
-  Definition leading_ws (l : list ch) : list ch := take_l is_blank l.
-  Definition tab4 (c : ch) : list ch := if is_tab c then [spc; spc; spc; spc] else [c].
-  Definition l002_fix_line (l : list ch) : list ch :=
-    match leading_ws l with
-    | [] => l
-    | lw => flat_map tab4 lw ++ trim_l is_blank l
-    end.
-  Definition l002_fix (t : list ch) : list ch := join_nl (map l002_fix_line (split_nl t)).
+  (* getLeadingWhitespace: the leading spaces and tabs that are code *)
+  Definition leading_ws (l : list cc) : list cc := take_l lblank l.
+  Definition tab4 (p : cc) : list cc := if is_tab (fst p) then [(spc, 0); (spc, 0); (spc, 0); (spc, 0)] else [p].
+  Definition l002_line (l : list cc) : list cc := flat_map tab4 (leading_ws l) ++ trim_l lblank l.
+  Definition l002_fix (t : list ch) : list ch := per_cline l002_line t.
 
   (* firstIndentType: 0 = none yet, 1 = tab, 2 = space *)
-  Fixpoint l002_check_lines (first : N) (n : nat) (ls : list (list ch)) : list viol :=
+  Fixpoint l002_check_lines (first : N) (n : nat) (ls : list (bool * list cc)) : list viol :=
     match ls with
     | [] => []
-    | l :: r =>
-        let lw := leading_ws l in
+    | fl :: r =>
+        let lw := leading_ws (snd fl) in
         match lw with
         | [] => l002_check_lines first (S n) r
         | _ =>
-            let ht := existsb is_tab lw in
-            let hs := existsb is_sp lw in
+            let ht := existsb (fun p => is_tab (fst p)) lw in
+            let hs := existsb (fun p => is_sp (fst p)) lw in
             if ht && hs then (n, 1%nat) :: l002_check_lines first (S n) r
             else
-              let cur := if ht then 1 else 2 in          (* lw is non-empty and holds only tabs/spaces *)
+              let cur := if ht then 1 else 2 in
               if first =? 0 then l002_check_lines cur (S n) r
               else if first =? cur then l002_check_lines first (S n) r
               else (n, 1%nat) :: l002_check_lines first (S n) r
         end
     end.
-  Definition l002_check (t : list ch) : list viol := l002_check_lines 0 1 (split_nl t).
+  Definition l002_check (t : list ch) : list viol := l002_check_lines 0 1 (clines t).
 
   (* ---------------------------------------------------------------------------------------------- *)
   (* L003 consecutive blank lines (maxConsecutive = mx) *)
 
-  Fixpoint l003_pass (mx : nat) (cnt : nat) (ls : list (list ch)) : list (list ch) :=
+  (* isBlankCodeLine: the line begins in code and holds white space only *)
+  Definition cblank (fl : bool * list cc) : bool := fst fl && blank_line (chars (snd fl)).
+
+  Fixpoint l003_pass (mx : nat) (cnt : nat) (ls : list (bool * list cc)) : list (bool * list cc) :=
     match ls with
     | [] => []
     | l :: r =>
-        if blank_line l then
+        if cblank l then
           if (S cnt <=? mx)%nat then l :: l003_pass mx (S cnt) r else l003_pass mx (S cnt) r
         else l :: l003_pass mx 0 r
     end.
-  (* the loop that trims the blank lines at the end of [result] down to at most mx *)
-  Definition trailing_blanks (ls : list (list ch)) : nat := length (take_l blank_line (rev ls)).
-  Fixpoint l003_trim_end (fuel : nat) (mx : nat) (ls : list (list ch)) : list (list ch) :=
+  (* the loop that trims the blank lines at the end of [result] down to at most mx (resultBlank = cblank) *)
+  Definition trailing_blanks (ls : list (bool * list cc)) : nat := length (take_l cblank (rev ls)).
+  Fixpoint l003_trim_end (fuel : nat) (mx : nat) (ls : list (bool * list cc)) : list (bool * list cc) :=
     match fuel with
     | O => ls
     | S k =>
         match rev ls with
         | [] => ls
         | lst :: _ =>
-            if blank_line lst then
+            if cblank lst then
               if (mx <? trailing_blanks ls)%nat then l003_trim_end k mx (removelast ls) else ls
             else ls
         end
     end.
+  Definition l003_lines (mx : nat) (ls : list (bool * list cc)) : list (bool * list cc) :=
+    let res := l003_pass mx 0 ls in l003_trim_end (length res) mx res.
   Definition l003_fix_mx (mx : nat) (t : list ch) : list ch :=
-    let res := l003_pass mx 0 (split_nl t) in
-    join_nl (l003_trim_end (length res) mx res).
+    join_nl (map (fun fl => chars (snd fl)) (l003_lines mx (clines t))).
   Definition l003_fix := l003_fix_mx 1.
 
-  (* Check: one violation per run of more than mx blank lines, at the first line of the run *)
-  Fixpoint l003_check_lines (mx : nat) (cnt start : nat) (n : nat) (ls : list (list ch)) : list viol :=
+  Fixpoint l003_check_lines (mx : nat) (cnt start : nat) (n : nat) (ls : list (bool * list cc)) : list viol :=
     match ls with
     | [] => if (mx <? cnt)%nat then [(start, 1%nat)] else []
     | l :: r =>
-        if blank_line l then
+        if cblank l then
           l003_check_lines mx (S cnt) (if (cnt =? 0)%nat then n else start) (S n) r
         else
           (if (mx <? cnt)%nat then [(start, 1%nat)] else []) ++ l003_check_lines mx 0 start (S n) r
     end.
-  Definition l003_check_mx (mx : nat) (t : list ch) : list viol := l003_check_lines mx 0 0 1 (split_nl t).
+  Definition l003_check_mx (mx : nat) (t : list ch) : list viol := l003_check_lines mx 0 0 1 (clines t).
   Definition l003_check := l003_check_mx 1.
 
   (* ---------------------------------------------------------------------------------------------- *)
-  (* L005 long lines (no fixer) *)
+  (* L005 long lines (no fixer; purely textual) *)
 
   Definition starts2 (a b : N) (l : list ch) : bool :=
     match l with
     | x :: y :: _ => (cp x =? a) && (cp y =? b)
     | _ => false
     end.
-  Definition l005_check_line (mx : nat) (n : nat) (l : list ch) : list viol :=
+  Definition l005_check_line (mx : nat) (n : nat) (fl : bool * list cc) : list viol :=
+    let l := chars (snd fl) in
     match l with
     | [] => []
     | _ =>
@@ -267,61 +355,33 @@ Section Lint.
         if starts2 45 45 tr || starts2 47 42 tr then []
         else if (mx <? blen l)%nat then [(n, S mx)] else []
     end.
-  Definition l005_check (mx : nat) (t : list ch) : list viol := on_lines (l005_check_line mx) 1 (split_nl t).
-
-  (* ---------------------------------------------------------------------------------------------- *)
-  (* the per-line quote tracker shared by L007 and L010: None = outside, Some q = inside a literal opened by q *)
-
-  (* single quote 39, double quote 34 (string literals, quoted identifiers) and back quote 96 (back-quoted identifiers) *)
-  Definition is_quote (c : ch) : bool := (cp c =? 39) || (cp c =? 34) || (cp c =? 96).
+  Definition l005_check (mx : nat) (t : list ch) : list viol := on_clines (l005_check_line mx) 1 (clines t).
 
   (* ---------------------------------------------------------------------------------------------- *)
   (* L010 redundant whitespace *)
 
-  (* fixLine, the loop over [trimmed] *)
-  Fixpoint l010_scan (q : option N) (prev_space : bool) (l : list ch) : list ch :=
+  Definition cspace (p : cc) : bool := is_sp (fst p) && code0 p.
+  (* fixLine, the loop after the indentation *)
+  Fixpoint l010_scan (prev_space : bool) (l : list cc) : list cc :=
     match l with
     | [] => []
-    | c :: t =>
-        match q with
-        | None =>
-            if cstart c t then c :: t              (* the comment is copied unchanged: WriteString(trimmed[i:]) *)
-            else if is_quote c then wr c :: l010_scan (Some (cp c)) false t
-            else if is_sp c then (if prev_space then [] else [wr c]) ++ l010_scan None true t
-            else wr c :: l010_scan None false t
-        | Some k =>
-            wr c :: l010_scan (if cp c =? k then None else Some k) prev_space t
-        end
+    | p :: t =>
+        if cspace p then (if prev_space then [] else [p]) ++ l010_scan true t
+        else p :: l010_scan false t
     end.
-  (* the first loop: leading = line[:i], trimmed = line[i:] at the first non-blank; if there is none the
-     whole line is "trimmed" *)
-  Definition l010_fix_line (l : list ch) : list ch :=
-    match trim_l is_blank l with
-    | [] => l010_scan None false l
-    | rest => take_l is_blank l ++ l010_scan None false rest
-    end.
-  Definition l010_fix (t : list ch) : list ch := join_nl (map l010_fix_line (split_nl t)).
+  Definition l010_line (l : list cc) : list cc := take_l lblank l ++ l010_scan false (trim_l lblank l).
+  Definition l010_fix (t : list ch) : list ch := per_cline l010_line t.
 
-  (* extractNonStringParts: (startCol, text as written by WriteRune) *)
-  Fixpoint l010_parts (q : option N) (i : nat) (start : nat) (cur : list ch) (l : list ch)
-    : list (nat * list ch) :=
+  (* codeParts: the maximal runs of code characters with their byte start columns *)
+  Fixpoint l010_parts (i : nat) (start : nat) (cur : list ch) (l : list cc) : list (nat * list ch) :=
     match l with
     | [] => match cur with [] => [] | _ => [(start, rev cur)] end
-    | c :: t =>
-        let i' := (i + width c)%nat in
-        match q with
-        | None =>
-            if cstart c t then match cur with [] => [] | _ => [(start, rev cur)] end     (* break *)
-            else if is_quote c then
-              (match cur with [] => [] | _ => [(start, rev cur)] end) ++ l010_parts (Some (cp c)) i' start [] t
-            else
-              l010_parts None i' (match cur with [] => i | _ => start end) (wr c :: cur) t
-        | Some k =>
-            if cp c =? k then l010_parts None i' i' cur t
-            else l010_parts q i' start cur t
-        end
+    | p :: t =>
+        let i' := (i + width (fst p))%nat in
+        if code0 p then l010_parts i' (match cur with [] => i | _ => start end) (fst p :: cur) t
+        else (match cur with [] => [] | _ => [(start, rev cur)] end) ++ l010_parts i' start [] t
     end.
-  (* regexp `  +` FindAllStringIndex: byte offsets (in the rewritten part) of the maximal runs of >= 2 spaces *)
+  (* regexp `  +` FindAllStringIndex: byte offsets of the maximal runs of >= 2 spaces *)
   Fixpoint sp_runs (off : nat) (run : nat) (runstart : nat) (l : list ch) : list nat :=
     match l with
     | [] => if (2 <=? run)%nat then [runstart] else []
@@ -329,17 +389,17 @@ Section Lint.
         if is_sp c then sp_runs (off + width c) (S run) (if (run =? 0)%nat then off else runstart) t
         else (if (2 <=? run)%nat then [runstart] else []) ++ sp_runs (off + width c) 0 runstart t
     end.
-  Definition first_blank (l : list ch) : bool := match l with c :: _ => is_blank c | [] => false end.
-  Definition l010_check_line (n : nat) (l : list ch) : list viol :=
+  Definition l010_check_line (n : nat) (fl : bool * list cc) : list viol :=
+    let l := chars (snd fl) in
     flat_map (fun p : nat * list ch =>
                 flat_map (fun m : nat =>
                             let col := S (fst p + m) in
-                            (* column <= len(line) && strings.TrimLeft(line[:column], " \t") == "" *)
-                            if (col <=? blen l)%nat && forallb (fun b => (b =? 32) || (b =? 9)) (firstn col (encode l)) then []
+                            (* strings.TrimLeft(line[:column], " \t") == "" *)
+                            if forallb (fun b => (b =? 32) || (b =? 9)) (firstn col (encode l)) then []
                             else [(n, col)])
                          (sp_runs 0 0 0 (snd p)))
-             (l010_parts None 0 0 [] l).
-  Definition l010_check (t : list ch) : list viol := on_lines l010_check_line 1 (split_nl t).
+             (l010_parts 0 0 [] (snd fl)).
+  Definition l010_check (t : list ch) : list viol := on_clines l010_check_line 1 (clines t).
 
   (* ---------------------------------------------------------------------------------------------- *)
   (* L007 keyword case (preferred style: upper, the CLI's configuration) *)
@@ -361,10 +421,10 @@ Section Lint.
     | Some u => if existsb (list_eqb u) keywords then Some u else None
     | None => None
     end.
-  (* convertKeyword *)
-  Definition conv_word (w : list ch) : list ch :=
-    match kw_of w with
-    | Some u => map asc u
+  (* convertKeyword, on classified characters (a word is code) *)
+  Definition conv_word (w : list cc) : list cc :=
+    match kw_of (chars w) with
+    | Some u => map (fun b => (asc b, 0)) u
     | None => w
     end.
   (* word.text != upperWord *)
@@ -373,54 +433,38 @@ Section Lint.
     | Some u => negb (list_eqb (encode w) u)
     | None => false
     end.
+  (* isWordRune on a code character *)
+  Definition wordc (inw : bool) (p : cc) : bool := code0 p && (word_start (fst p) || (inw && is_digit (cp (fst p)))).
 
-  (* fixLine: cur = current word (reversed); None/Some quote state *)
-  Fixpoint l007_scan (q : option N) (cur : option (list ch)) (l : list ch) : list ch :=
+  (* fixLine: the words of the code are converted, everything else is copied; cur = current word (reversed) *)
+  Fixpoint l007_scan (cur : option (list cc)) (l : list cc) : list cc :=
     let flush := match cur with Some w => conv_word (rev w) | None => [] end in
     match l with
     | [] => flush
-    | c :: t =>
-        match q with
-        | None =>
-            if cstart c t then flush ++ c :: t     (* the comment is copied unchanged: WriteString(line[i:]) *)
-            else if is_quote c then flush ++ wr c :: l007_scan (Some (cp c)) None t
-            else
-              let inw := match cur with Some _ => true | None => false end in
-              if word_start c || (inw && is_digit (cp c)) then
-                l007_scan None (Some (wr c :: match cur with Some w => w | None => [] end)) t
-              else flush ++ wr c :: l007_scan None None t
-        | Some k =>
-            wr c :: l007_scan (if cp c =? k then None else Some k) cur t
-        end
+    | p :: t =>
+        let inw := match cur with Some _ => true | None => false end in
+        if wordc inw p then l007_scan (Some (p :: match cur with Some w => w | None => [] end)) t
+        else flush ++ p :: l007_scan None t
     end.
-  Definition l007_fix_line (l : list ch) : list ch := l007_scan None None l.
-  Definition l007_fix (t : list ch) : list ch := join_nl (map l007_fix_line (split_nl t)).
+  Definition l007_line (l : list cc) : list cc := l007_scan None l.
+  Definition l007_fix (t : list ch) : list ch := per_cline l007_line t.
 
-  (* tokenizeLine: (column, word) list *)
-  Fixpoint l007_words (q : option N) (i : nat) (cur : option (nat * list ch)) (l : list ch)
-    : list (nat * list ch) :=
+  (* codeWords: (column, word) list *)
+  Fixpoint l007_words (i : nat) (cur : option (nat * list ch)) (l : list cc) : list (nat * list ch) :=
     let flush := match cur with Some (s, w) => [(S s, rev w)] | None => [] end in
     match l with
     | [] => flush
-    | c :: t =>
-        let i' := (i + width c)%nat in
-        match q with
-        | None =>
-            if cstart c t then flush               (* break *)
-            else if is_quote c then flush ++ l007_words (Some (cp c)) i' None t
-            else
-              let inw := match cur with Some _ => true | None => false end in
-              if word_start c || (inw && is_digit (cp c)) then
-                l007_words None i' (Some (match cur with Some (s, w) => (s, wr c :: w) | None => (i, [wr c]) end)) t
-              else flush ++ l007_words None i' None t
-        | Some k =>
-            l007_words (if cp c =? k then None else Some k) i' cur t
-        end
+    | p :: t =>
+        let i' := (i + width (fst p))%nat in
+        let inw := match cur with Some _ => true | None => false end in
+        if wordc inw p then
+          l007_words i' (Some (match cur with Some (s, w) => (s, fst p :: w) | None => (i, [fst p]) end)) t
+        else flush ++ l007_words i' None t
     end.
-  Definition l007_check_line (n : nat) (l : list ch) : list viol :=
+  Definition l007_check_line (n : nat) (fl : bool * list cc) : list viol :=
     flat_map (fun p : nat * list ch => if word_viol (snd p) then [(n, fst p)] else [])
-             (l007_words None 0 None l).
-  Definition l007_check (t : list ch) : list viol := on_lines l007_check_line 1 (split_nl t).
+             (l007_words 0 None (snd fl)).
+  Definition l007_check (t : list ch) : list viol := on_clines l007_check_line 1 (clines t).
 
   (* ---------------------------------------------------------------------------------------------- *)
   (* the CLI's --auto-fix loop: every auto-fixable rule of createLinter(), in registration order *)
@@ -442,7 +486,6 @@ Section Lint.
         | [] => false
         end
     end.
-  (* keyword prefixes, as byte lists: groups that reset the indent, and the AND/OR group that sets it *)
   Definition fmt_reset : list (list N) :=
     [ [83;69;76;69;67;84]; [73;78;83;69;82;84]; [85;80;68;65;84;69]; [68;69;76;69;84;69]; [67;82;69;65;84;69];
       [68;82;79;80]; [65;76;84;69;82]; [87;73;84;72];
@@ -456,20 +499,25 @@ Section Lint.
     else if existsb (fun k => has_prefix_up k tr) fmt_indent then indent
     else if existsb (fun k => has_prefix_up k tr) fmt_reset2 then []
     else cur.
-  Fixpoint fmt_lines (indent cur : list ch) (ls : list (list ch)) : list (list ch) :=
+  (* trimCodeSpace: leading white space; trailing white space as far as it is code or the tail of a -- comment *)
+  Definition tspace (p : cc) : bool := spacec (fst p) && ((snd p =? 0) || (snd p =? 3)).
+  Definition trim_code (l : list cc) : list cc := trim_r tspace (trim_l (fun p => spacec (fst p)) l).
+  Fixpoint fmt_lines (indent cur : list ch) (ls : list (bool * list cc)) : list (list ch) :=
     match ls with
     | [] => []
-    | l :: r =>
-        match trim_space l with
-        | [] => fmt_lines indent cur r
-        | tr => let cur' := fmt_next_indent indent cur tr in (cur' ++ tr) :: fmt_lines indent cur' r
-        end
+    | (flag, l) :: r =>
+        if flag then
+          match trim_code l with
+          | [] => fmt_lines indent cur r
+          | tr => let cur' := fmt_next_indent indent cur (chars tr) in (cur' ++ chars tr) :: fmt_lines indent cur' r
+          end
+        else chars l :: fmt_lines indent cur r       (* continuation of a multi-line literal or block comment *)
     end.
   Definition ends_nl (l : list ch) : bool := match rev l with c :: _ => is_nl c | [] => false end.
   Definition format_sql (tab : nat) (spaces final : bool) (t : list ch) : list ch :=
     let indent := if spaces then repeat spc tab else [asc 9] in
-    let f := join_nl (fmt_lines indent [] (split_nl t)) in
-    if final && negb (ends_nl f) then f ++ [nlc] else f.
+    let f := join_nl (fmt_lines indent [] (clines t)) in
+    if final && negb (ends_nl f) && end_code (lex_end SCode t) then f ++ [nlc] else f.
 
 End Lint.
 
@@ -485,59 +533,59 @@ Definition wfc (c : ch) : Prop :=
   (cp c < 128 -> valid c = true).
 Definition wft (t : list ch) : Prop := forall c, In c t -> wfc c.
 
-Fixpoint lastc {A} (l : list A) : option A :=
-  match l with
-  | [] => None
-  | [c] => Some c
-  | _ :: t => lastc t
-  end.
-(* the defect L001 names: the line ends in a space or a tab *)
-Definition ends_blank (l : list ch) : Prop := exists c, lastc l = Some c /\ is_blank c = true.
-
 (* byte level: a text made of ASCII bytes, and a rewriter seen as a function on bytes *)
 Definition ascii_bytes (s : list N) : bool := forallb (fun b => b <? 128) s.
 Definition onbytes (f : list ch -> list ch) (s : list N) : list N := encode (f (decode s)).
 
-(* what L002 and L003 name *)
-(* indentation kind of a line: 0 none, 1 tabs only, 2 spaces only, 3 mixed *)
-Definition ikind (l : list ch) : N :=
-  match leading_ws l with
-  | [] => 0
-  | lw => if existsb is_tab lw && existsb is_sp lw then 3 else if existsb is_tab lw then 1 else 2
-  end.
-(* the indentation style of the first purely indented line *)
-Fixpoint first_pure (ks : list N) : N :=
-  match ks with
-  | [] => 0
-  | k :: r => if (k =? 1) || (k =? 2) then k else first_pure r
-  end.
-Definition eff (first : N) (pre : list (list ch)) : N := if first =? 0 then first_pure (map ikind pre) else first.
-(* the defect L002 names: the line mixes tabs and spaces, or is purely indented in another style than the first such line *)
-Definition l002_defect (first : N) (pre : list (list ch)) (l : list ch) : Prop :=
-  ikind l = 3 \/ ((ikind l = 1 \/ ikind l = 2) /\ eff first pre <> 0 /\ eff first pre <> ikind l).
+(* L010: what the rule names.  r is a maximal run of two or more code spaces of the classified line l, after pre *)
+Definition cspace_run (l pre r post : list cc) : Prop :=
+  l = pre ++ r ++ post /\ forallb cspace r = true /\ (2 <= length r)%nat /\
+  match lastc pre with Some q => cspace q = false | None => True end /\
+  match post with d :: _ => cspace d = false | [] => True end.
+(* strings.TrimLeft(line[:col], " \t") == "": the first col bytes of the line are spaces and tabs (indentation) *)
+Definition indent_bytes (l : list cc) (col : nat) : bool :=
+  forallb (fun b => (b =? 32) || (b =? 9)) (firstn col (encode (chars l))).
 
-(* number of consecutive blank lines from line i (0-based) on *)
-Definition run_from (is_space : N -> bool) (ls : list (list ch)) (i : nat) : nat := length (take_l (blank_line is_space) (skipn i ls)).
-(* line i is blank and is the first of its run (cnt = blank lines pending before the list) *)
-Definition startsG (is_space : N -> bool) (cnt : nat) (ls : list (list ch)) (i : nat) : Prop :=
-  (exists l, nth_error ls i = Some l /\ blank_line is_space l = true) /\
-  match i with O => cnt = 0%nat | S j => exists p, nth_error ls j = Some p /\ blank_line is_space p = false end.
+(* L007: what the rule names.  The scanner is inside a word after a code character that starts a word, or continues one *)
+Section SpecWords.
+  Variables is_letter is_digit : N -> bool.
+  Fixpoint inword_after (inw : bool) (l : list cc) : bool :=
+    match l with
+    | [] => inw
+    | p :: t => inword_after (wordc is_letter is_digit inw p) t
+    end.
+  (* w is a code word of the classified line l that begins at character index |pre|: it starts with a letter or '_' of code
+     where no word is running, continues with letters, digits and '_' of code, and is not continued by the next character *)
+  Definition code_word (l pre w post : list cc) : Prop :=
+    l = pre ++ w ++ post /\ inword_after false pre = false /\
+    match w with
+    | p :: v => wordc is_letter is_digit false p = true /\ forallb (wordc is_letter is_digit true) v = true
+    | [] => False
+    end /\
+    match post with [] => True | d :: _ => wordc is_letter is_digit true d = false end.
+End SpecWords.
 
 Section Spec.
   Variable is_space : N -> bool.
   Variable upper_ascii : N -> option N.
 
-  (* whitespace: a Unicode space, the blanks of the cut set " \t", or the newline *)
+  (* number of consecutive blank lines of code from line i (0-based) on *)
+  Definition run_from (ls : list (bool * list cc)) (i : nat) : nat := length (take_l (cblank is_space) (skipn i ls)).
+  (* line i is a blank line of code and is the first of its run (cnt = blank lines pending before the list) *)
+  Definition startsG (cnt : nat) (ls : list (bool * list cc)) (i : nat) : Prop :=
+    (exists l, nth_error ls i = Some l /\ cblank is_space l = true) /\
+    match i with O => cnt = 0%nat | S j => exists p, nth_error ls j = Some p /\ cblank is_space p = false end.
+
+  (* whitespace: a Unicode space, a space or tab, or the newline *)
   Definition wsc (c : ch) : bool := spacec is_space c || is_blank c || is_nl c.
-  (* the "ink" of a text: the code points of its non-whitespace characters *)
-  Definition ink (t : list ch) : list N := map cp (filter (fun c => negb (wsc c)) t).
   (* case folding: a rune with an ASCII upper-case image is identified with that image *)
   Definition fold (c : ch) : N := match upper_ascii (cp c) with Some u => u | None => cp c end.
 
-  (* the reading of a text as code: separators (one per run of whitespace, none at the two ends) and the
-     case-folded non-blank characters.  Two texts with the same reading differ only in the amount of
-     whitespace between the same character runs and in letter case: nothing is added, dropped or merged. *)
-  (* VW separator, VC case-folded code character, VL character of a literal / quoted identifier / comment (exact) *)
+  (* the reading of a text: what a layout rewriter must keep.
+     VW  one separator per run of code white space (none at the two ends of the text);
+     VC  a code character, case folded;
+     VL  a character of a string literal, quoted identifier or comment, exactly.
+     White space that ends a -- comment (before the line break or the end of the text) is layout, not content. *)
   Inductive vtok := VW | VC (n : N) | VL (c : ch).
   Definition scons (x : vtok) (l : list vtok) : list vtok :=
     match x, l with
@@ -547,41 +595,33 @@ Section Spec.
     end.
   Fixpoint strip_lead (l : list vtok) : list vtok := match l with VW :: t => strip_lead t | _ => l end.
   Definition vt (c : ch) : vtok := if wsc c then VW else VC (fold c).
-  (* R l Z: the reading of l followed by a text whose reading is Z *)
-  Definition R (l : list ch) (Z : list vtok) : list vtok := fold_right (fun c z => scons (vt c) z) Z l.
-  Definition cview (t : list ch) : list vtok := strip_lead (R t []).
-
-  (* the lexical reading proper: an independent classification of every character as code (0), part of a
-     string literal or quoted identifier (1) or part of a comment (2), by the SQL lexical rules for
-     '...', "...", `...` (a doubled quote re-opens at once), -- to end of line, and /* ... */ *)
-  Inductive lstate := LCode | LStr (q : N) | LLine | LBlockOpen | LBlock | LBlockClose.
-  Definition quote3 (c : ch) : bool := (cp c =? 39) || (cp c =? 34) || (cp c =? 96).
-  Fixpoint lex (st : lstate) (l : list ch) : list N :=
+  (* is the rest of the line white space only? *)
+  Definition rest_ws (l : list cc) : bool := forallb (fun p => wsc (fst p)) l.
+  Definition item (p : cc) (rest : list cc) : vtok :=
+    if snd p =? 0 then vt (fst p)
+    else if (snd p =? 3) && wsc (fst p) && rest_ws rest then VW
+    else VL (fst p).
+  (* the reading of one classified line, followed by Z *)
+  Fixpoint RD (l : list cc) (Z : list vtok) : list vtok :=
     match l with
+    | [] => Z
+    | p :: t => scons (item p t) (RD t Z)
+    end.
+  (* the reading of the classified lines: a line break is a separator when the next line begins in code, and
+     content of the literal / block comment it lies in otherwise *)
+  Fixpoint RDL (ls : list (bool * list cc)) : list vtok :=
+    match ls with
     | [] => []
-    | c :: t =>
-        match st with
-        | LCode =>
-            if quote3 c then 1 :: lex (LStr (cp c)) t
-            else if (cp c =? 45) && next_is 45 t then 2 :: lex LLine t
-            else if (cp c =? 47) && next_is 42 t then 2 :: lex LBlockOpen t
-            else 0 :: lex LCode t
-        | LStr q => 1 :: lex (if cp c =? q then LCode else LStr q) t
-        | LLine => if is_nl c then 0 :: lex LCode t else 2 :: lex LLine t
-        | LBlockOpen => 2 :: lex LBlock t
-        | LBlock => if (cp c =? 42) && next_is 47 t then 2 :: lex LBlockClose t else 2 :: lex LBlock t
-        | LBlockClose => 2 :: lex LCode t
+    | fl :: r =>
+        match r with
+        | [] => RD (snd fl) []
+        | fl2 :: _ => RD (snd fl) (scons (if fst fl2 then VW else VL nlc) (RDL r))
         end
     end.
-  (* code characters are read as in [cview]; characters of literals and comments are read exactly *)
-  Fixpoint R2 (cls : list N) (l : list ch) (Z : list vtok) : list vtok :=
-    match l, cls with
-    | c :: t, k :: ks => scons (if k =? 0 then vt c else VL c) (R2 ks t Z)
-    | _, _ => Z
-    end.
-  Definition reading (t : list ch) : list vtok := strip_lead (R2 (lex LCode t) t []).
-  (* a text without any literal, quoted identifier or comment *)
-  Definition plain (t : list ch) : bool := forallb (fun k => k =? 0) (lex LCode t).
+  Definition reading (t : list ch) : list vtok := strip_lead (RDL (clines t)).
+
+  (* the reading of a text as code only (every character of class 0) *)
+  Definition R (l : list ch) (Z : list vtok) : list vtok := fold_right (fun c z => scons (vt c) z) Z l.
 End Spec.
 
 (* ------------------------------------------------------------------------------------------------ *)
